@@ -1,6 +1,7 @@
 package main
 
 import (
+	"encoding/binary"
 	"encoding/hex"
 	"fmt"
 	"math"
@@ -9,7 +10,9 @@ import (
 	"github.com/zenon-network/go-zenon/chain"
 	"github.com/zenon-network/go-zenon/chain/nom"
 	"github.com/zenon-network/go-zenon/pow"
+	"github.com/zenon-network/go-zenon/common/types"
 	"github.com/zenon-network/go-zenon/rpc/api"
+	apiembedded "github.com/zenon-network/go-zenon/rpc/api/embedded"
 	"github.com/zenon-network/go-zenon/vm"
 	"github.com/zenon-network/go-zenon/vm/constants"
 	"github.com/zenon-network/go-zenon/vm/embedded/definition"
@@ -83,7 +86,7 @@ func trPrioName(err error) string {
 func init() {
 	register("translated", func(c *Ctx) {
 		for n := 0; n < c.N; n++ {
-			switch n % 9 {
+			switch n % 14 {
 			case 0: // api.GetRange — C18: the slice lies inside the list and holds at most count elements
 				i, cnt, l := trU32(c), trU32(c), trU32(c)
 				s, e := api.GetRange(i, cnt, l)
@@ -200,7 +203,179 @@ func init() {
 				v := trCall(func() string { return implementation.GetWeightedStakeAmountVerif(a, t).String() })
 				c.Emit("tr-wamount %s %d | %s", a, t, v)
 				c.Hit("wamount")
+			case 9: // pow.greaterDifficulty — C12: little-endian x ≥ y on 8 bytes; shorter slices panic
+				x, y := make([]byte, 8), make([]byte, 8)
+				c.R.Read(x)
+				c.R.Read(y)
+				switch c.R.Intn(6) {
+				case 0: // equal
+					copy(y, x)
+				case 1: // equal above one byte
+					copy(y, x)
+					y[c.R.Intn(8)] = byte(c.R.Intn(256))
+				case 2: // few distinct values
+					for i := range x {
+						x[i], y[i] = byte(c.R.Intn(2))*255, byte(c.R.Intn(2))*255
+					}
+				case 3: // a short slice
+					if c.R.Intn(2) == 0 {
+						x = x[:c.R.Intn(8)]
+					} else {
+						y = y[:c.R.Intn(8)]
+					}
+				}
+				hx := func(b []byte) string {
+					if len(b) == 0 {
+						return "-"
+					}
+					return hex.EncodeToString(b)
+				}
+				v := trCall(func() string { return fmt.Sprint(pow.GreaterDifficultyVerif(x, y)) })
+				c.Emit("tr-gd %s %s | %s", hx(x), hx(y), v)
+				c.Hit("gd-" + v)
+				if len(x) == 8 && len(y) == 8 {
+					want := binary.LittleEndian.Uint64(x) >= binary.LittleEndian.Uint64(y)
+					if v != fmt.Sprint(want) {
+						c.Fail(fmt.Sprintf("greaterDifficulty(%x, %x) = %s, little-endian x >= y is %v", x, y, v, want))
+					}
+				}
+			case 10: // constants.NetworkZnnRewardPerEpoch / NetworkQsrRewardPerEpoch — C11: table lookup, last entry forever
+				e := trU64(c)
+				if c.R.Intn(2) == 0 {
+					e = uint64(c.R.Intn(400))
+				}
+				if c.R.Intn(2) == 0 {
+					v := trCall(func() string { return fmt.Sprint(constants.NetworkZnnRewardPerEpoch(e)) })
+					c.Emit("tr-netznn %d | %s", e, v)
+					t := e / 30
+					if t >= uint64(len(constants.NetworkZnnRewardConfig)) {
+						t = uint64(len(constants.NetworkZnnRewardConfig)) - 1
+					}
+					if v != fmt.Sprint(constants.NetworkZnnRewardConfig[t]) {
+						c.Fail(fmt.Sprintf("NetworkZnnRewardPerEpoch(%d) = %s, table entry min(e/30, last) = %d", e, v, constants.NetworkZnnRewardConfig[t]))
+					}
+				} else {
+					v := trCall(func() string { return fmt.Sprint(constants.NetworkQsrRewardPerEpoch(e)) })
+					c.Emit("tr-netqsr %d | %s", e, v)
+					t := e / 30
+					if t >= uint64(len(constants.NetworkQsrRewardConfig)) {
+						t = uint64(len(constants.NetworkQsrRewardConfig)) - 1
+					}
+					if v != fmt.Sprint(constants.NetworkQsrRewardConfig[t]) {
+						c.Fail(fmt.Sprintf("NetworkQsrRewardPerEpoch(%d) = %s, table entry min(e/30, last) = %d", e, v, constants.NetworkQsrRewardConfig[t]))
+					}
+				}
+				c.Hit("netreward")
+			case 11: // vm.GetBasePlasmaForAccountBlock, plain send to a user address — C12: 21000 + 68·len, refused above MaxDataLength
+				lens := []int{0, 1, 2, 100, 16383, 16384, 16385, 20000}
+				l := lens[c.R.Intn(len(lens))]
+				if c.R.Intn(2) == 0 {
+					l = c.R.Intn(17000)
+				}
+				blk := &nom.AccountBlock{BlockType: nom.BlockTypeUserSend, Data: make([]byte, l)}
+				blk.Address[0], blk.ToAddress[0] = 0, 0 // user addresses (not the embedded prefix)
+				v := trCall(func() string {
+					p, err := vm.GetBasePlasmaForAccountBlock(nil, blk)
+					if err != nil {
+						return "ErrABDataTooBig"
+					}
+					return fmt.Sprint(p)
+				})
+				c.Emit("tr-baseplasma %d | %s", l, v)
+				c.Hit("baseplasma")
+				want := fmt.Sprint(21000 + 68*l)
+				if l > constants.MaxDataLength {
+					want = "ErrABDataTooBig"
+				}
+				if v != want {
+					c.Fail(fmt.Sprintf("GetBasePlasmaForAccountBlock(plain send, %d data bytes) = %s, the statement's answer is %s", l, v, want))
+				}
+			case 12: // page-size guards of paged getters on zero-value APIs — C18: a page size above RpcMaxPageSize is refused
+				sz := trU32(c)
+				if c.R.Intn(2) == 0 {
+					sz = []uint32{0, 1, 49, 50, 51, 1023, 1024, 1025, 2048}[c.R.Intn(9)]
+				}
+				g := trPageGetters[c.R.Intn(len(trPageGetters))]
+				v := trCall(func() string {
+					if g.call(sz) == api.ErrPageSizeParamTooBig {
+						return "toobig"
+					}
+					return "passed"
+				})
+				if v == "panic" { // the guard let the call through and the zero-value API dereferenced nil
+					v = "passed"
+				}
+				c.Emit("tr-pageguard %s %d | %s", g.name, sz, v)
+				c.Hit("pageguard-" + v)
+				if sz > api.RpcMaxPageSize && v != "toobig" {
+					c.Fail(fmt.Sprintf("%s accepted pageSize %d > RpcMaxPageSize", g.name, sz))
+				}
+			case 13: // accountPool.filterBlocksToCommit — C14: a prefix of at most MaxAccountBlocksInMomentum blocks that does
+				// not end inside a batch of contract sends, and the longest such prefix
+				k := c.R.Intn(40)
+				switch c.R.Intn(4) {
+				case 0:
+					k = 95 + c.R.Intn(12)
+				case 1:
+					k = 100 + c.R.Intn(150)
+				}
+				blocks := make([]*nom.AccountBlock, k)
+				ts := make([]byte, k)
+				pCS := []int{0, 20, 50, 80, 95}[c.R.Intn(5)]
+				for i := range blocks {
+					t := uint64(2 + c.R.Intn(2)*1 + c.R.Intn(2)*2) // 2, 3, 4 or 5
+					if c.R.Intn(100) < pCS {
+						t = nom.BlockTypeContractSend
+					}
+					blocks[i] = &nom.AccountBlock{BlockType: t, Height: uint64(i + 1)}
+					ts[i] = byte('0' + t)
+				}
+				tstr := "-"
+				if k > 0 {
+					tstr = string(ts)
+				}
+				var out []*nom.AccountBlock
+				v := trCall(func() string { out = chain.FilterBlocksToCommitVerif(blocks); return fmt.Sprint(len(out)) })
+				c.Emit("tr-filter %s | %s", tstr, v)
+				c.Hit("filter")
+				if v != "panic" {
+					bad := len(out) > chain.MaxAccountBlocksInMomentum || len(out) > k
+					for i := range out {
+						bad = bad || out[i] != blocks[i]
+					}
+					if len(out) > 0 && out[len(out)-1].BlockType == nom.BlockTypeContractSend {
+						bad = true
+					}
+					// maximal: the next complete batch would not fit (or there is none)
+					j := len(out)
+					for j < k && blocks[j].BlockType == nom.BlockTypeContractSend {
+						j++
+					}
+					if j < k && j+1 <= chain.MaxAccountBlocksInMomentum {
+						bad = true
+					}
+					if bad {
+						c.Fail(fmt.Sprintf("filterBlocksToCommit(%s) committed %d blocks: not the longest prefix of whole batches within %d", tstr, len(out), chain.MaxAccountBlocksInMomentum))
+					}
+				}
 			}
 		}
 	})
+}
+
+// paged getters called on zero-value API objects: only their page-size guard can answer without a node
+var trPageGetters = []struct {
+	name string
+	call func(sz uint32) error
+}{
+	{"pageGuard_rpc_api_LedgerApi_GetAccountBlocksByPage", func(sz uint32) error { _, err := (&api.LedgerApi{}).GetAccountBlocksByPage(types.Address{}, 0, sz); return err }},
+	{"pageGuard_rpc_api_LedgerApi_GetMomentumsByPage", func(sz uint32) error { _, err := (&api.LedgerApi{}).GetMomentumsByPage(0, sz); return err }},
+	{"pageGuard_rpc_api_LedgerApi_GetUnconfirmedBlocksByAddress", func(sz uint32) error { _, err := (&api.LedgerApi{}).GetUnconfirmedBlocksByAddress(types.Address{}, 0, sz); return err }},
+	// GetUnreceivedBlocksByAddress logs through l.log before its guard: not callable on a zero value
+	{"pageGuard_rpc_api_embedded_PillarApi_GetAll", func(sz uint32) error { _, err := (&apiembedded.PillarApi{}).GetAll(0, sz); return err }},
+	{"pageGuard_rpc_api_embedded_TokenAPI_GetAll", func(sz uint32) error { _, err := (&apiembedded.TokenAPI{}).GetAll(0, sz); return err }},
+	{"pageGuard_rpc_api_embedded_StakeApi_GetEntriesByAddress", func(sz uint32) error { _, err := (&apiembedded.StakeApi{}).GetEntriesByAddress(types.Address{}, 0, sz); return err }},
+	{"pageGuard_rpc_api_embedded_PlasmaApi_GetEntriesByAddress", func(sz uint32) error { _, err := (&apiembedded.PlasmaApi{}).GetEntriesByAddress(types.Address{}, 0, sz); return err }},
+	{"pageGuard_rpc_api_embedded_SentinelApi_GetAllActive", func(sz uint32) error { _, err := (&apiembedded.SentinelApi{}).GetAllActive(0, sz); return err }},
+	{"pageGuard_rpc_api_embedded_AcceleratorApi_GetAll", func(sz uint32) error { _, err := (&apiembedded.AcceleratorApi{}).GetAll(0, sz); return err }},
 }
